@@ -57,7 +57,7 @@ func init() {
 				}
 				return 1 << 10
 			},
-			Run: func(c *run.Ctx, idx uint64) { c08Sweep(c, k, idx) },
+			Run:  func(c *run.Ctx, idx uint64) { c08Sweep(c, k, idx) },
 			Rule: "quick: 2^24 bit patterns (every sign/exponent/top-5-mantissa combination x 1024 middle-bit values x PRNG low byte) plus the boundary table; thorough: all 2^32 float32 bit patterns, block by block",
 			Min:  map[string]int64{"values": 1 << 16, "form1": 10, "form4": 1000, "inexact_within_4ulp": 100},
 		})
@@ -917,7 +917,7 @@ func (s *flagSink) AbsArcTo(rx, ry, rot float32, la, sw bool, x, y float32) {
 // ---- truncated numbers
 
 func c08Truncated(c *run.Ctx, idx uint64) {
-	form := int(idx % 3)          // real / coordinate / zero-to-one
+	form := int(idx % 3)           // real / coordinate / zero-to-one
 	w := []int{1, 2, 4}[(idx/3)%3] // form length
 	ctx := int(idx / 9)            // instruction context
 	r := c.Rng(idx)
